@@ -583,7 +583,7 @@ PROP = Property(
           "a space or abstract name; distinct = feature set x kind."),
     strategy=strategy,
     run_case=run_case,
-    budgets={"quick": 12000, "thorough": 300000},
+    budgets={"quick": 12000, "thorough": 100000},
     calibrate=calibrate,
     extra_tiers=[("live", live_tier)],
     assumptions=[
